@@ -5,7 +5,7 @@ import lib
 from lib import D, rule_text
 from props import common, rulebase
 
-STR_MEMBERS = ["*a*", "*b*", "a*", "*c", "abc", "?b", "?^a", "i*B*", "iABC", "*z*", "z*", "?z", "*", "''", "i*Z"]
+STR_MEMBERS = ["*a*", "*b*", "a*", "*c", "abc", "?b", "?^a", "i*B*", "iABC", "*z*", "z*", "?z", "*", "''", "i*Z", "i?B", "i?^A", "i?C$", "i?Z"]
 NUM_MEMBERS = [5, ">3", "<9", ">=5", "<=4", "=5", 7, ">5.5"]
 BOOL_MEMBERS = [True, False]
 MAP_MEMBERS = [{"a": "x"}, {"b": "y"}, {"a": "z"}, {"c": 5}]
